@@ -93,16 +93,21 @@ fn export_types(db: &DbIndex) -> Vec<Type> {
         })
         .collect();
     // The type index is a hash map: sort so that the export does not depend on its iteration order.
-    types.sort_by(|a, b| type_name(a).cmp(type_name(b)));
+    // File-scoped types of different files may share a name, so the first location breaks ties.
+    types.sort_by(|a, b| type_sort_key(a).cmp(&type_sort_key(b)));
     types
 }
 
-fn type_name(typ: &Type) -> &str {
-    match typ {
-        Type::Class(class) => &class.name,
-        Type::Enum(enum_) => &enum_.name,
-        Type::Alias(alias) => &alias.name,
-    }
+fn type_sort_key(typ: &Type) -> (&str, Option<(&std::path::Path, usize)>) {
+    let (name, loc) = match typ {
+        Type::Class(class) => (&class.name, &class.loc),
+        Type::Enum(enum_) => (&enum_.name, &enum_.loc),
+        Type::Alias(alias) => (&alias.name, &alias.loc),
+    };
+    (
+        name.as_str(),
+        loc.first().map(|loc| (loc.file.as_path(), loc.line)),
+    )
 }
 
 fn export_globals(db: &DbIndex) -> Vec<Global> {
